@@ -108,6 +108,7 @@ func checkC13(p *Prog, r *Report) {
 	ruleSharedStateInGoroutines(p, r, "R13.13", false)
 	ruleStatusFileOnly(p, r)
 	ruleCurrentPolicyStaysPlain(p, r)
+	ruleWalkVisitsAll(p, r)
 	ruleOpenFlags(p, r, "R13.17")
 	r.rule("R13.16", "Every line of the session's log is classified: in the front-ends and the status code (packages doapprove, status, cmd/missing-approve) no loop is left early (`break`, jump to the end of an enclosing loop) except at audited places (tables/breaks_audit.tsv; none today). The loop of do-approve over the log lines sets the flags errors / warnings / changed from which the recorded result is computed; leaving it at the first line loses a later `comp: *** device changed ***`.")
 	ruleBreaksAudited(p, r, "R13.16", "C13", map[string]bool{"doapprove": true, "status": true, "cmd/missing-approve": true})
